@@ -2,14 +2,20 @@ import A5.Lemmas.ChildPentagon
 /-! # Parent ↔ child pentagons, part 2: every child pentagon shares interior area with its parent (planar C12)
 
 Polygons are lists of rational points, wound CLOCKWISE like the seed pentagon (`areaG 0 seedQ > 0`; `rot180` and
-`reflectY` — which mirrors AND reverses the list — keep the winding, `pentagon_convexCW`).  A point is strictly inside a
+`reflectY` — which mirrors AND reverses the list — keep the winding: `pentagonQ_convex`).  A point is strictly inside a
 convex clockwise polygon iff every edge has it strictly on its right: `StrictIn`.
 
 **T-overlap** (`child_overlaps_parent`): for every depth `1 ≤ n+1 < 30`, orientation, position and child there is a
 point strictly inside both the parent pentagon `pentagonQ ap` and the child pentagon scaled to the parent's frame
-`scaleG' (pentagonQ ac) (1/2)`.  The witness is the vertex mean of the Sutherland–Hodgman clip of the child by the
-parent, computed in exact arithmetic for each of the finitely many step quads (`witness`, `overlap_table`), and
-translated by `BASIS * parent offset`.  Depth 0 → 1 (parent = quintant triangle): `root_child_overlaps`. -/
+`halfPent ac = scaleG' (pentagonQ ac) (1/2)`.
+
+How: the two pentagons, with the parent's translation `BASIS * offset` removed, depend only on the normalised step quad
+`normQ q = (parent flips, parent reflected?, Δ, child flips, child reflected?)`; over all orientations there are 48 of
+them.  `pieceData` lists for each a convex polygon (integer coordinates in units of 2⁻¹⁶) lying in parent ∩ child — it was
+produced outside the proof by Sutherland–Hodgman clipping of the child by the parent in exact arithmetic, shrinking by
+1/512 about the vertex mean and rounding — and `piece_table` CHECKS in exact arithmetic (kernel evaluation) that every
+vertex lies in both pentagons, that the polygon is strictly convex and clockwise, and that its vertex mean is strictly
+inside both pentagons.  The same pieces are used for the coverage theorem in part 3. -/
 namespace A5.CP
 open A5 A5.HilbertLocate A5.PG
 
@@ -31,11 +37,31 @@ instance (P : List Pt) (q : Pt) : Decidable (StrictIn P q) := by unfold StrictIn
 def InClosed (P : List Pt) (q : Pt) : Prop := ∀ e ∈ edges P, cross e.1 e.2 q ≤ 0
 instance (P : List Pt) (q : Pt) : Decidable (InClosed P q) := by unfold InClosed; infer_instance
 
-/-- strictly convex and clockwise: every vertex is strictly to the right of the edge two steps before it -/
-def ConvexCW (P : List Pt) : Prop := ∀ t ∈ (edges P).zip (P.drop 2 ++ P.take 2), cross t.1.1 t.1.2 t.2 < 0
-instance (P : List Pt) : Decidable (ConvexCW P) := by unfold ConvexCW; infer_instance
+/-- strictly convex, clockwise, simple: the vertices are pairwise distinct and every vertex other than the two ends of
+an edge lies strictly to the right of that edge (so each edge is an edge of the convex hull, traversed clockwise, and
+the list goes round the hull exactly once) -/
+def StrictConvexCW (Q : List Pt) : Prop :=
+  Q.Nodup ∧ ∀ e ∈ edges Q, ∀ v ∈ Q, v = e.1 ∨ v = e.2 ∨ cross e.1 e.2 v < 0
+instance (Q : List Pt) : Decidable (StrictConvexCW Q) := by unfold StrictConvexCW; infer_instance
+
+/-- twice the area of a convex clockwise polygon: fan of triangles from the first vertex -/
+def fanArea2 (Q : List Pt) : ℚ :=
+  match Q with
+  | [] => 0
+  | q0 :: _ => -((edges Q).map (fun e => cross q0 e.1 e.2)).sum
+
+/-- vertex mean -/
+def mean (P : List Pt) : Pt := ((P.map Prod.fst).sum / P.length, (P.map Prod.snd).sum / P.length)
 
 def shift (t v : Pt) : Pt := (v.1 + t.1, v.2 + t.2)
+
+theorem shift_injective (t : Pt) : Function.Injective (shift t) := by
+  intro a b h
+  unfold shift at h
+  have h1 := congrArg Prod.fst h
+  have h2 := congrArg Prod.snd h
+  dsimp only at h1 h2
+  exact Prod.ext (by linarith) (by linarith)
 
 theorem edges_map (f : Pt → Pt) (P : List Pt) : edges (P.map f) = (edges P).map (Prod.map f f) := by
   unfold edges
@@ -61,31 +87,27 @@ theorem InClosed.shift {P : List Pt} {q : Pt} (h : InClosed P q) (t : Pt) : InCl
   rewrite [Prod.map_fst, Prod.map_snd, cross_shift]
   exact h e0 he0
 
-theorem ConvexCW.shift {P : List Pt} (h : ConvexCW P) (t : Pt) : ConvexCW (P.map (shift t)) := by
-  unfold ConvexCW at h ⊢
-  rewrite [edges_map, ← List.map_drop, ← List.map_take, ← List.map_append, List.zip_map]
-  intro e he
+theorem StrictConvexCW.shift {Q : List Pt} (h : StrictConvexCW Q) (t : Pt) : StrictConvexCW (Q.map (shift t)) := by
+  obtain ⟨h1, h2⟩ := h
+  refine ⟨List.Pairwise.map _ (fun a b hab h => hab (shift_injective t h)) h1, ?_⟩
+  rewrite [edges_map]
+  intro e he v hv
   obtain ⟨e0, he0, rfl⟩ := List.mem_map.1 he
-  simp only [Prod.map_fst, Prod.map_snd, cross_shift]
-  exact h e0 he0
+  obtain ⟨v0, hv0, rfl⟩ := List.mem_map.1 hv
+  rewrite [Prod.map_fst, Prod.map_snd, cross_shift]
+  rcases h2 e0 he0 v0 hv0 with h | h | h
+  · exact Or.inl (congrArg _ h)
+  · exact Or.inr (Or.inl (congrArg _ h))
+  · exact Or.inr (Or.inr h)
 
-/-! ## Sutherland–Hodgman clipping of a polygon by a convex clockwise polygon, exact arithmetic -/
-
-/-- contribution of the subject edge `s → e` when clipping by the half-plane to the right of `a → b` -/
-def clipStep (a b s e : Pt) : List Pt :=
-  let cs := cross a b s
-  let ce := cross a b e
-  let ix : Pt := (s.1 + (e.1 - s.1) * (cs / (cs - ce)), s.2 + (e.2 - s.2) * (cs / (cs - ce)))
-  if ce ≤ 0 then (if cs ≤ 0 then [e] else [ix, e]) else (if cs ≤ 0 then [ix] else [])
-
-def clipEdge (poly : List Pt) (ab : Pt × Pt) : List Pt :=
-  (edges poly).flatMap (fun se => clipStep ab.1 ab.2 se.1 se.2)
-
-/-- `subject ∩ clipper` for a convex clockwise `clipper` -/
-def clip (subject clipper : List Pt) : List Pt := (edges clipper).foldl clipEdge subject
-
-/-- vertex mean -/
-def mean (P : List Pt) : Pt := ((P.map Prod.fst).sum / P.length, (P.map Prod.snd).sum / P.length)
+theorem fanArea2_shift (Q : List Pt) (t : Pt) : fanArea2 (Q.map (shift t)) = fanArea2 Q := by
+  cases Q with
+  | nil => rfl
+  | cons q0 Q =>
+    show -(((edges ((q0 :: Q).map (shift t))).map _).sum) = -(((edges (q0 :: Q)).map _).sum)
+    rewrite [edges_map, List.map_map]
+    refine congrArg _ (congrArg _ (List.map_congr_left (fun e _ => ?_)))
+    exact cross_shift t q0 e.1 e.2
 
 /-! ## the pentagons in the parent's local frame -/
 
@@ -145,13 +167,150 @@ theorem child_frame (ap ac : Anchor) :
   obtain ⟨b0, b1, b2, b3⟩ := b
   refine Prod.ext ?_ ?_ <;> (dsimp only [Function.comp]; push_cast; ring)
 
-/-! ## T-overlap -/
+/-! ## normalised quads and the certificate data -/
 
-/-- the witness point: vertex mean of the clip of the child by the parent -/
-def witness (q : Quad) : Pt := mean (clip (childPent q) (parentPent q))
+/-- `(parent flips, parent reflected?, Δ, child flips, child reflected?)`: all the two pentagons depend on -/
+abbrev NQuad := (Int × Int) × Bool × (Int × Int) × (Int × Int) × Bool
+
+def normQ (q : Quad) : NQuad := (q.1.2.1, reflK q.2.1 q.1.2.1, q.1.1, q.1.2.2, reflK q.2.2 q.1.2.2)
+
+def parentPentN (x : NQuad) : List Pt := localPent x.1 x.2.1
+def childPentN (x : NQuad) : List Pt :=
+  (localPent x.2.2.2.1 x.2.2.2.2).map (fun v => (v.1 / 2 + (halfBasis x.2.2.1).1, v.2 / 2 + (halfBasis x.2.2.1).2))
+
+theorem parentPent_norm (q : Quad) : parentPent q = parentPentN (normQ q) := rfl
+theorem childPent_norm (q : Quad) : childPent q = childPentN (normQ q) := rfl
+
+/-- integer coordinates in units of 2⁻¹⁶ -/
+def dy (p : Int × Int) : Pt := ((p.1 : ℚ) / 65536, (p.2 : ℚ) / 65536)
+
+def P (a b : Int) : Int × Int := (a, b)
+def E (f1 f2 : Int) (r : Bool) (d1 d2 c1 c2 : Int) (rc : Bool) (l : List (Int × Int)) : NQuad × List (Int × Int) :=
+  (((f1, f2), r, (d1, d2), (c1, c2), rc), l)
+
+/-- for each of the 48 normalised quads a convex polygon inside parent ∩ child (units of 2⁻¹⁶; produced by clipping,
+shrinking by 1/512 and rounding; CHECKED by `piece_table`) -/
+def pieceData : List (NQuad × List (Int × Int)) := [
+  E 1 1 false 0 0 1 1 false [P 26 11, P 6547 12288, P 20238 14696, P 26759 2418, P 13718 (-2397)],
+  E 1 1 false 1 0 1 (-1) false [P 40477 (-2), P 27436 (-4817), P 13745 (-2410), P 26786 2405],
+  E 1 1 false 1 1 (-1) 1 true [P 33972 17108, P 47013 12293, P 40492 15, P 26801 2423, P 20280 14700],
+  E 1 1 false 2 0 1 (-1) true [P 47028 12317, P 33986 17132, P 40507 29409, P 49366 12728],
+  E 1 (-1) false (-1) 1 1 1 false [P 26 (-29425), P 13067 (-24610), P 26759 (-27018), P 13718 (-31833)],
+  E 1 (-1) false 0 1 1 (-1) false [P 40477 (-29438), P 33957 (-41716), P 20265 (-44123), P 13744 (-31846), P 26786 (-27031)],
+  E 1 (-1) false (-1) 2 (-1) (-1) true [P 6532 (-46535), P (-6510) (-41720), P 11 (-29443), P 13703 (-31850), P 20223 (-44128)],
+  E 1 (-1) false (-2) 1 1 1 true [P (-6524) (-41744), P 6517 (-46559), P (-3) (-58837), P (-8863) (-42156)],
+  E 1 1 true 0 0 1 1 false [P 13717 (-2406), P 26 2, P 25645 4506, P 26759 2409],
+  E 1 1 true 1 0 1 (-1) false [P 26790 2399, P 40482 (-9), P 33961 (-12286), P 20269 (-14694), P 13749 (-2416)],
+  E 1 1 true 0 1 1 1 true [P 33970 (-12317), P 47011 (-17132), P 40490 (-29409), P 26799 (-27002), P 20278 (-14724)],
+  E 1 1 true 1 1 (-1) 1 true [P 26792 2413, P 25678 4510, P 27442 4821, P 40483 6],
+  E (-1) 1 true 0 0 (-1) 1 true [P (-6534) 17111, P 6507 12296, P (-13) 18, P (-13705) 2426, P (-20225) 14703],
+  E (-1) 1 true 1 (-1) (-1) (-1) false [P (-13714) 31826, P (-22) 29419, P (-6542) 17141, P (-20234) 14734, P (-26755) 27011],
+  E (-1) 1 true 0 (-1) (-1) 1 false [P (-26786) 27022, P (-40478) 29429, P (-14859) 33934, P (-13745) 31837],
+  E (-1) 1 true 1 (-2) 1 1 true [P (-13712) 31841, P (-14826) 33938, P (-13061) 34248, P (-20) 29433],
+  E 1 (-1) true 0 0 1 (-1) true [P 6534 (-17111), P (-6507) (-12296), P 13 (-18), P 13705 (-2426), P 20225 (-14703)],
+  E 1 (-1) true (-1) 1 1 1 false [P 13714 (-31826), P 22 (-29419), P 6542 (-17141), P 20234 (-14734), P 26755 (-27011)],
+  E 1 (-1) true 0 1 1 (-1) false [P 26786 (-27022), P 40478 (-29429), P 14859 (-33934), P 13745 (-31837)],
+  E 1 (-1) true (-1) 2 (-1) (-1) true [P 13712 (-31841), P 14826 (-33938), P 13061 (-34248), P 20 (-29433)],
+  E (-1) (-1) true 0 0 (-1) (-1) false [P (-13717) 2406, P (-26) (-2), P (-25645) (-4506), P (-26759) (-2409)],
+  E (-1) (-1) true (-1) 0 (-1) 1 false [P (-26790) (-2399), P (-40482) 9, P (-33961) 12286, P (-20269) 14694, P (-13749) 2416],
+  E (-1) (-1) true 0 (-1) (-1) (-1) true [P (-33970) 12317, P (-47011) 17132, P (-40490) 29409, P (-26799) 27002, P (-20278) 14724],
+  E (-1) (-1) true (-1) (-1) 1 (-1) true [P (-26792) (-2413), P (-25678) (-4510), P (-27442) (-4821), P (-40483) (-6)],
+  E (-1) (-1) false 0 0 (-1) (-1) false [P (-26) (-11), P (-6547) (-12288), P (-20238) (-14696), P (-26759) (-2418), P (-13718) 2397],
+  E (-1) (-1) false (-1) 0 (-1) 1 false [P (-40477) 2, P (-27436) 4817, P (-13745) 2410, P (-26786) (-2405)],
+  E (-1) (-1) false (-1) (-1) 1 (-1) true [P (-33972) (-17108), P (-47013) (-12293), P (-40492) (-15), P (-26801) (-2423), P (-20280) (-14700)],
+  E (-1) (-1) false (-2) 0 (-1) 1 true [P (-47028) (-12317), P (-33986) (-17132), P (-40507) (-29409), P (-49366) (-12728)],
+  E (-1) 1 false 1 (-1) (-1) (-1) false [P (-26) 29425, P (-13067) 24610, P (-26759) 27018, P (-13718) 31833],
+  E (-1) 1 false 0 (-1) (-1) 1 false [P (-40477) 29438, P (-33957) 41716, P (-20265) 44123, P (-13744) 31846, P (-26786) 27031],
+  E (-1) 1 false 1 (-2) 1 1 true [P (-6532) 46535, P 6510 41720, P (-11) 29443, P (-13703) 31850, P (-20223) 44128],
+  E (-1) 1 false 2 (-1) (-1) (-1) true [P 6524 41744, P (-6517) 46559, P 3 58837, P 8863 42156],
+  E 1 1 false 1 0 1 1 true [P 33972 17108, P 47013 12293, P 40492 15, P 26801 2423, P 20280 14700],
+  E 1 1 false 2 1 (-1) (-1) true [P 47028 12317, P 33986 17132, P 40507 29409, P 49366 12728],
+  E 1 (-1) false (-2) 2 (-1) 1 true [P (-6524) (-41744), P 6517 (-46559), P (-3) (-58837), P (-8863) (-42156)],
+  E 1 (-1) false (-1) 1 1 (-1) true [P 6532 (-46535), P (-6510) (-41720), P 11 (-29443), P 13703 (-31850), P 20223 (-44128)],
+  E 1 1 true 1 0 1 1 true [P 26792 2413, P 25678 4510, P 27442 4821, P 40483 6],
+  E 1 1 true 0 2 (-1) 1 true [P 33970 (-12317), P 47011 (-17132), P 40490 (-29409), P 26799 (-27002), P 20278 (-14724)],
+  E (-1) 1 true 1 (-1) (-1) 1 true [P (-13712) 31841, P (-14826) 33938, P (-13061) 34248, P (-20) 29433],
+  E (-1) 1 true 0 (-1) 1 1 true [P (-6534) 17111, P 6507 12296, P (-13) 18, P (-13705) 2426, P (-20225) 14703],
+  E 1 (-1) true (-1) 1 1 (-1) true [P 13712 (-31841), P 14826 (-33938), P 13061 (-34248), P 20 (-29433)],
+  E 1 (-1) true 0 1 (-1) (-1) true [P 6534 (-17111), P (-6507) (-12296), P 13 (-18), P 13705 (-2426), P 20225 (-14703)],
+  E (-1) (-1) true (-1) 0 (-1) (-1) true [P (-26792) (-2413), P (-25678) (-4510), P (-27442) (-4821), P (-40483) (-6)],
+  E (-1) (-1) true 0 (-2) 1 (-1) true [P (-33970) 12317, P (-47011) 17132, P (-40490) 29409, P (-26799) 27002, P (-20278) 14724],
+  E (-1) (-1) false (-1) 0 (-1) (-1) true [P (-33972) (-17108), P (-47013) (-12293), P (-40492) (-15), P (-26801) (-2423), P (-20280) (-14700)],
+  E (-1) (-1) false (-2) (-1) 1 1 true [P (-47028) (-12317), P (-33986) (-17132), P (-40507) (-29409), P (-49366) (-12728)],
+  E (-1) 1 false 2 (-2) 1 (-1) true [P 6524 41744, P (-6517) 46559, P 3 58837, P 8863 42156],
+  E (-1) 1 false 1 (-1) (-1) 1 true [P (-6532) 46535, P 6510 41720, P (-11) 29443, P (-13703) 31850, P (-20223) 44128]]
+
+/-- the `(invertJ, flipIJ)` classes of the six orientations -/
+def oriClasses : List (Bool × Bool) := [(false, false), (true, false), (false, true)]
+
+theorem mem_oriClasses (inv fl : Bool) (hex : ¬(fl = true ∧ inv = true)) : (inv, fl) ∈ oriClasses := by
+  cases inv <;> cases fl <;> first | decide | exact absurd ⟨rfl, rfl⟩ hex
+
+/-- every step quad of every orientation class that occurs is covered by the data -/
+def HasPiece (q : Quad) : Prop := normQ q ∈ pieceData.map Prod.fst
+instance (q : Quad) : Decidable (HasPiece q) := by unfold HasPiece; infer_instance
+
+theorem norm_mem_classes : ∀ c ∈ oriClasses, ∀ q ∈ finalQuads c.1 c.2, HasPiece q := by decide +kernel
+
+theorem norm_mem (inv fl : Bool) (hex : ¬(fl = true ∧ inv = true)) (q : Quad) (hq : q ∈ finalQuads inv fl) :
+    normQ q ∈ pieceData.map Prod.fst := norm_mem_classes (inv, fl) (mem_oriClasses inv fl hex) q hq
+
+/-- what is checked for each entry: the polygon is strictly convex and clockwise, all its vertices lie in the (closed)
+parent pentagon and in the (closed) child pentagon, and its vertex mean is strictly inside both -/
+def PieceOK (x : NQuad × List (Int × Int)) : Prop :=
+  StrictConvexCW (x.2.map dy) ∧
+  (∀ v ∈ x.2.map dy, InClosed (parentPentN x.1) v ∧ InClosed (childPentN x.1) v) ∧
+  StrictIn (parentPentN x.1) (mean (x.2.map dy)) ∧ StrictIn (childPentN x.1) (mean (x.2.map dy))
+
+instance (x : NQuad × List (Int × Int)) : Decidable (PieceOK x) := by unfold PieceOK; infer_instance
 
 set_option maxRecDepth 8192 in
-theorem overlap_table : ∀ inv fl : Bool, ¬(fl = true ∧ inv = true) → ∀ q ∈ finalQuads inv fl,
-    StrictIn (parentPent q) (witness q) ∧ StrictIn (childPent q) (witness q) := by decide +kernel
+theorem piece_table : ∀ x ∈ pieceData, PieceOK x := by decide +kernel
+
+/-- the certificate entry of a step quad -/
+theorem piece_of_quad (inv fl : Bool) (hex : ¬(fl = true ∧ inv = true)) (q : Quad) (hq : q ∈ finalQuads inv fl) :
+    ∃ x ∈ pieceData, x.1 = normQ q ∧ PieceOK x := by
+  obtain ⟨x, hx, e⟩ := List.mem_map.1 (norm_mem inv fl hex q hq)
+  exact ⟨x, hx, e, piece_table x hx⟩
+
+/-! ## T-overlap -/
+
+/-- **T-overlap** (planar C12, exact arithmetic on the runtime constants).  For every curve depth `1 ≤ n+1 < 30`,
+orientation `o < 6`, position `s < 4^(n+1)` and child `d < 4` there is a point strictly inside both the parent's
+pentagon and the child's pentagon (scaled by 1/2 into the parent's lattice frame): the two share interior area. -/
+theorem child_overlaps_parent (n o s d : Nat) (hn : n + 2 ≤ 30) (ho : o < 6) (hs : s < 4 ^ (n + 1)) (hd : d < 4) :
+    ∃ ap ac, sToAnchor s (n + 1) o = .ok ap ∧ sToAnchor (4 * s + d) (n + 2) o = .ok ac ∧
+      ∃ w : ℚ × ℚ, StrictIn (pentagonQ ap) w ∧ StrictIn (scaleG' (pentagonQ ac) (1 / 2)) w := by
+  obtain ⟨ap, ac, h1, h2, _, _, hm⟩ := child_quad_mem n o s d hn hs hd
+  obtain ⟨x, _, e, _, _, w1, w2⟩ := piece_of_quad _ _ (fun hh => flags_exclusive o ho hh) _ hm
+  rewrite [e, ← parentPent_norm] at w1
+  rewrite [e, ← childPent_norm] at w2
+  refine ⟨ap, ac, h1, h2, shift (basisMul ap.offset) (mean (x.2.map dy)), ?_, ?_⟩
+  · rewrite [parent_frame ap ac]; exact w1.shift _
+  · show StrictIn (halfPent ac) _
+    rewrite [child_frame ap ac]; exact w2.shift _
+
+/-- instance at a reversing, inverting orientation (4), depth 2 → 3 -/
+example : ∃ ap ac, sToAnchor 11 2 4 = .ok ap ∧ sToAnchor 46 3 4 = .ok ac ∧
+    ∃ w : ℚ × ℚ, StrictIn (pentagonQ ap) w ∧ StrictIn (scaleG' (pentagonQ ac) (1 / 2)) w :=
+  child_overlaps_parent 1 4 11 2 (by decide) (by decide) (by decide) (by decide)
+
+/-- the hypotheses are not vacuous and the predicate is not trivial, evaluated independently of the table: orientation 0,
+parent 1 (depth 1), child 7 (depth 2): the point `(0.62, -0.35)` is strictly inside both pentagons, while the child's own
+centre is NOT inside the parent (pentagons do not nest) -/
+example : sToAnchor 1 1 0 = .ok ⟨1, (1, 0), (1, -1)⟩ ∧ sToAnchor 7 2 0 = .ok ⟨2, (0, 1), (1, 1)⟩ ∧
+    StrictIn (pentagonQ ⟨1, (1, 0), (1, -1)⟩) (62 / 100, -35 / 100) ∧
+    StrictIn (scaleG' (pentagonQ ⟨2, (0, 1), (1, 1)⟩) (1 / 2)) (62 / 100, -35 / 100) ∧
+    ¬ StrictIn (pentagonQ ⟨1, (1, 0), (1, -1)⟩) ((centreQ ⟨2, (0, 1), (1, 1)⟩).1 / 2, (centreQ ⟨2, (0, 1), (1, 1)⟩).2 / 2) := by
+  decide +kernel
+
+/-! ## the pentagons are strictly convex and clockwise -/
+
+theorem localPent_convex : ∀ F ∈ flips4, ∀ r : Bool, StrictConvexCW (localPent F r) := by decide +kernel
+
+/-- every cell pentagon is a strictly convex clockwise pentagon (so `StrictIn` / `InClosed` mean what they say) -/
+theorem pentagonQ_convex (a : Anchor) (hF : IsFlip a.flips) : StrictConvexCW (pentagonQ a) := by
+  rewrite [pentagonQ_eq]
+  exact (localPent_convex _ (mem_flips4 _ hF) _).shift _
 
 end A5.CP
